@@ -1,9 +1,37 @@
 import Rare.Drv.Expr
+/-!
+Ops of C17 (besides the shared `expr` op):
+
+  splitter <S hex> <Delim hex>                       drain the model of `stringSplitter.Splitter`
+  conc <G> <rounds> <opt> <template> <elems> <keys>  the model is sequential and deterministic: same
+                                                     answer as `expr` on the base context
+-/
 namespace Rare.Drv.C17
+open Rare Rare.Expr Rare.Proto Rare.Expr.Funcs.Range
+
+/-- `for !sp.Done() { out = append(out, sp.Next()) }` with the harness' round limit. -/
+def drain : Nat → Splitter → List Bytes → Option (List Bytes)
+  | 0, _, _ => none
+  | fuel + 1, sp, acc =>
+    if sp.Done then some acc.reverse
+    else let r := sp.Next; drain fuel r.2 (r.1 :: acc)
 
 def handle (args : List String) : String :=
-  match Rare.Drv.Expr.handle args with
-  | some a => a
-  | none => "bad-op"
+  match args with
+  | ["splitter", s, d] =>
+    match Hex.dec s, Hex.dec d with
+    | some sb, some db =>
+      match drain (sb.length + 3) { S := sb, Delim := db } [] with
+      | some l => "ok " ++ hexList l
+      | none => "hang"
+    | _, _ => "bad-args"
+  | ["conc", _, _, o, t, el, ks] =>
+    match Rare.Drv.Expr.handle ["expr", o, t, el, ks] with
+    | some a => a
+    | none => "bad-op"
+  | _ =>
+    match Rare.Drv.Expr.handle args with
+    | some a => a
+    | none => "bad-op"
 
 end Rare.Drv.C17
